@@ -150,6 +150,13 @@ def wl_util(spec, ctx, mods):
                     yi, yl = gen.segmentation(r, start=0, total=tot * 64)
                     if r.random() < 0.5:
                         xi, xl, yi, yl = yi, yl, xi, xl
+                elif r.random() < 0.12 and len(xi) >= 3:
+                    # an un-annotated gap inside one annotation
+                    k = r.randrange(1, len(xi) - 1)
+                    xi = np.delete(xi, k, axis=0)
+                    xl = [l for j, l in enumerate(xl) if j != k]
+                    if r.random() < 0.5:
+                        xi, xl, yi, yl = yi, yl, xi, xl
                 elif r.random() < 0.15 and len(xi) >= 2:
                     # the second annotation shares the first one's boundaries up to
                     # one ulp (0.3 typed vs 0.1 + 0.2 computed): slivers, not merges
